@@ -57,6 +57,7 @@ type handler1 struct {
 	// reused in the session, hence the state is final.
 	topicIDsDepleted uint32
 	pktBuffer        []snPkts.Packet
+	stopPinger       context.CancelFunc // stops the sleep pinger of the current sleep period
 	group            *errgroup.Group
 	transactions     *transactions.TransactionStore
 	// for testing
@@ -558,6 +559,8 @@ func (h *handler1) handleConnect(ctx context.Context, snConnect *snPkts1.Connect
 	// the MQTT broker: another MQTT CONNECT would be a protocol violation.
 	// See MQTT-SN specification v. 1.2, chapter 6.14
 	if state := h.state.Get(); state == util.StateAwake || state == util.StateAsleep {
+		// An active client keeps the connection alive itself.
+		h.stopSleepPinger()
 		h.setState(util.StateActive)
 		reply := snPkts1.NewConnack(snPkts1.RC_ACCEPTED)
 		if err := h.snSend(reply); err != nil {
@@ -865,9 +868,12 @@ func (h *handler1) handleMqttSn(ctx context.Context, pkt snPkts.Packet) error {
 			return Shutdown
 		} else {
 			h.log.Debug("Going to sleep for %vs", snPkt.Duration)
+			// A pinger of a previous sleep period must not outlive it.
+			h.stopSleepPinger()
 			if h.keepAlive != 0 && snPkt.Duration > h.keepAlive {
 				// We must ensure MQTT gateway considers client alive during sleep period.
 				cancelPinger := h.startSleepPinger(ctx)
+				h.stopPinger = cancelPinger
 				time.AfterFunc(time.Duration(snPkt.Duration)*time.Second, cancelPinger)
 			}
 			h.pktBuffer = nil
@@ -922,6 +928,13 @@ func (h *handler1) handleMqttSn(ctx context.Context, pkt snPkts.Packet) error {
 
 	default:
 		return fmt.Errorf("unsupported MQTT-SN packet type: %v", pkt)
+	}
+}
+
+func (h *handler1) stopSleepPinger() {
+	if h.stopPinger != nil {
+		h.stopPinger()
+		h.stopPinger = nil
 	}
 }
 
